@@ -808,7 +808,7 @@ static char c_sock_from_fd (char **av) { int d = ai (av, 1), e = ai (av, 2); LIB
 #define NAMEARG(n) do { if ((n) < 0 || (n) >= NNAMES) return '-'; } while (0)
 static char c_sem_new (char **av) { int d = ai (av, 1), n = ai (av, 2), mode = ai (av, 3), e = ai (av, 4); LIB (); EMPTY (d); NAMEARG (n); ERRARG (e, d);
 	PSemaphore *r = p_semaphore_new (nm_base[n], 1, mode ? P_SEM_ACCESS_CREATE : P_SEM_ACCESS_OPEN, e_in (e)); e_out (e);
-	if (!r) return 'F'; put (d, T_SEM, r); return 'S'; }
+	if (!r) return 'F'; put (d, T_SEM, r); S[d].c = n; return 'S'; }
 static char c_sem_cycle (char **av) { int d = ai (av, 1), e = ai (av, 2); LIB (); NEED (d, T_SEM); ERRARG (e, d);
 	pboolean ok = p_semaphore_release (S[d].p, e_in (e)); e_out (e); if (!ok) return 'F';
 	ok = p_semaphore_acquire (S[d].p, e_in (e)); e_out (e); return ok ? 'S' : 'F'; }
@@ -817,7 +817,7 @@ static char c_sem_free (char **av) { int d = ai (av, 1); LIB (); NEED (d, T_SEM)
 static psize shm_size (int k) { return k == 0 ? 1024 : (k == 1 ? 3 * 4096 : (k == 2 ? 512 : (k == 3 ? 8 : 0))); }
 static char c_shm_new (char **av) { int d = ai (av, 1), n = ai (av, 2), sz = ai (av, 3), e = ai (av, 4); LIB (); EMPTY (d); NAMEARG (n); ERRARG (e, d);
 	PShm *r = p_shm_new (nm_base[n], shm_size (sz), P_SHM_ACCESS_READWRITE, e_in (e)); e_out (e);
-	if (!r) return 'F'; put (d, T_SHM, r); return 'S'; }
+	if (!r) return 'F'; put (d, T_SHM, r); S[d].c = n; return 'S'; }
 static char c_shm_own (char **av) { int d = ai (av, 1); LIB (); NEED (d, T_SHM); p_shm_take_ownership (S[d].p); return 'S'; }
 static char c_shm_cycle (char **av) { int d = ai (av, 1), e = ai (av, 2); LIB (); NEED (d, T_SHM); ERRARG (e, d);
 	pboolean ok = p_shm_lock (S[d].p, e_in (e)); e_out (e); if (!ok) return 'F';
@@ -826,7 +826,7 @@ static char c_shm_cycle (char **av) { int d = ai (av, 1), e = ai (av, 2); LIB ()
 static char c_shm_free (char **av) { int d = ai (av, 1); LIB (); NEED (d, T_SHM); p_shm_free (S[d].p); clr (d); return 'S'; }
 static char c_shmbuf_new (char **av) { int d = ai (av, 1), n = ai (av, 2), sz = ai (av, 3), e = ai (av, 4); LIB (); EMPTY (d); NAMEARG (n); ERRARG (e, d);
 	PShmBuffer *r = p_shm_buffer_new (nm_base[n], shm_size (sz), e_in (e)); e_out (e);
-	if (!r) return 'F'; put (d, T_SHMBUF, r); return 'S'; }
+	if (!r) return 'F'; put (d, T_SHMBUF, r); S[d].c = n; return 'S'; }
 static char c_shmbuf_rw (char **av) { int d = ai (av, 1), e = ai (av, 2); LIB (); NEED (d, T_SHMBUF); ERRARG (e, d);
 	char b[8] = "abcdefg", r[8];
 	p_shm_buffer_clear (S[d].p);
@@ -1009,7 +1009,19 @@ static unsigned long long content (int i) {
 	}
 }
 
-static struct { int t; unsigned long long h; } seen[NSLOT];
+/* the IPC names an object lives under (files of /dev/shm): they may disappear only when a handle of that name is freed, or when a
+ * semaphore of that name is re-created (access mode CREATE) */
+static int name_there (int n, int j) { char p[128]; snprintf (p, sizeof p, "/dev/shm/%s", nm_file[n][j]); return access (p, F_OK) == 0; }
+static unsigned long long names_of (int i) {
+	int n = (int) S[i].c;
+	if (n < 0 || n >= NNAMES) return 0;
+	switch (S[i].t) {
+	case T_SEM: return (unsigned long long) name_there (n, 0);
+	case T_SHM: case T_SHMBUF: return (unsigned long long) (name_there (n, 1) * 2 + name_there (n, 2));
+	default: return 0;
+	}
+}
+static struct { int t; unsigned long long h, nh; } seen[NSLOT];
 static char chg[512];               /* what changed against the rules: call#:slot:type,... */
 static long ncall;
 
@@ -1020,7 +1032,7 @@ static void probe_reset (void) { memset (seen, 0, sizeof seen); chg[0] = 0; ncal
  * changed although the call was not allowed to change it. */
 static int probe_after (char **av, const char *may, char outcome) {
 	int bad = 0, on = a_on;
-	int allowed[NSLOT] = { 0 }, shm_all = 0;
+	int allowed[NSLOT] = { 0 }, shm_all = 0, names_any = 0;
 	ncall++;
 	if (!lib_inited) return 0;      /* between p_libsys_shutdown and the next p_libsys_init the getters that allocate cannot be used:
 	                                 * the objects are read back (and compared with their state before the shutdown) after the next init */
@@ -1028,6 +1040,7 @@ static int probe_after (char **av, const char *may, char outcome) {
 	for (const char *q = may ? may : ""; *q; ) {
 		while (*q == ' ') q++;
 		if (!strncmp (q, "!shm", 4)) { shm_all = 1; q += 4; continue; }
+		if (!strncmp (q, "!names", 6)) { names_any = 1; q += 6; continue; }
 		if (*q >= '1' && *q <= '6') { int ix = *q - '0'; q++; int ok = 0;
 			while (*q && *q != ' ') { if (*q == outcome) ok = 1; q++; }
 			int sl = av[ix] ? ai (av, ix) : -1;
@@ -1039,6 +1052,14 @@ static int probe_after (char **av, const char *may, char outcome) {
 		unsigned long long h = S[i].t == T_NONE ? 0 : content (i);
 		int changed = seen[i].t != T_NONE && seen[i].t == S[i].t && seen[i].h != h && !allowed[i]
 		    && !(shm_all && (S[i].t == T_SHM || S[i].t == T_SHMBUF));
+		unsigned long long nh = S[i].t == T_NONE ? 0 : names_of (i);
+		int gone = seen[i].t != T_NONE && seen[i].t == S[i].t && (seen[i].nh & ~nh) != 0 && !names_any;    /* a name that was there is not there any more */
+		seen[i].nh = nh;
+		if (gone) {
+			size_t L = strlen (chg);
+			if (L + 40 < sizeof chg) snprintf (chg + L, sizeof chg - L, "%s%ld:%d:%s-name", L ? "," : "", ncall, i, TYNAME[S[i].t]);
+			bad = 1;
+		}
 		if (changed || incons) {
 			size_t L = strlen (chg);
 			if (L + 40 < sizeof chg) snprintf (chg + L, sizeof chg - L, "%s%ld:%d:%s%s", L ? "," : "", ncall, i, TYNAME[S[i].t], changed ? "" : "!");
@@ -1070,9 +1091,9 @@ static const struct { const char *name; char (*fn) (char **); const char *may; }
 	{ "sock_new", c_sock_new }, { "sock_bad", c_sock_bad }, { "sock_listen", c_sock_listen, "1SF" }, { "sock_connect", c_sock_connect },
 	{ "sock_connect_refused", c_sock_connect_refused }, { "sock_connect_timeout", c_sock_connect_timeout }, { "sock_accept", c_sock_accept }, { "sock_local", c_sock_local }, { "sock_remote", c_sock_remote },
 	{ "sock_udp_echo", c_sock_udp_echo }, { "sock_close", c_sock_close, "1SF" }, { "sock_free", c_sock_free }, { "sock_from_fd", c_sock_from_fd },
-	{ "sem_new", c_sem_new }, { "sem_cycle", c_sem_cycle }, { "sem_own", c_sem_own }, { "sem_free", c_sem_free },
-	{ "shm_new", c_shm_new }, { "shm_own", c_shm_own }, { "shm_cycle", c_shm_cycle, "!shm" }, { "shm_free", c_shm_free },
-	{ "shmbuf_new", c_shmbuf_new }, { "shmbuf_rw", c_shmbuf_rw, "!shm" }, { "shmbuf_own", c_shmbuf_own }, { "shmbuf_free", c_shmbuf_free },
+	{ "sem_new", c_sem_new, "!names" }, { "sem_cycle", c_sem_cycle }, { "sem_own", c_sem_own }, { "sem_free", c_sem_free, "!names" },
+	{ "shm_new", c_shm_new }, { "shm_own", c_shm_own }, { "shm_cycle", c_shm_cycle, "!shm" }, { "shm_free", c_shm_free, "!names" },
+	{ "shmbuf_new", c_shmbuf_new }, { "shmbuf_rw", c_shmbuf_rw, "!shm" }, { "shmbuf_own", c_shmbuf_own }, { "shmbuf_free", c_shmbuf_free, "!names" },
 	{ "mutex_new", c_mutex_new }, { "mutex_free", c_mutex_free }, { "cond_new", c_cond_new }, { "cond_free", c_cond_free },
 	{ "rwlock_new", c_rwlock_new }, { "rwlock_free", c_rwlock_free }, { "rwlockg_new", c_rwlockg_new }, { "rwlockg_free", c_rwlockg_free },
 	{ "spin_new", c_spin_new }, { "spin_free", c_spin_free }, { "prof_new", c_prof_new }, { "prof_free", c_prof_free }, { "lock_cycle", c_lock_cycle },
